@@ -4,7 +4,8 @@
    Text -> AST is CPython's parser (eval); the model starts from the AST and
    the harness sends the printed text to the implementation.
 
-   Values carry a symbolic square root: {core; num; den} = core * sqrt(num/den).
+   Values carry a symbolic square root and a rational divisor:
+   {core; num; den; div} = core * sqrt(num/den) / div   (div > 0).
    Sums need equal radicands (otherwise [Unrepresentable]: such expressions
    are not generated for the tie). *)
 From mathcomp Require Import all_ssreflect all_algebra.
@@ -29,7 +30,13 @@ Inductive expr :=
 | EMul of expr & expr
 | EDivNum of expr & nat & nat & bool   (* e / (p/q) *)
 | EPow of expr & nat & bool    (* e ** (+-n) *)
-| EMethod of expr & method.
+| EMethod of expr & method
+(* --- additions for compiled expressions (C01): the evaluator doubles as
+       Semantic-Pointer arithmetic on the current source values --- *)
+| EScalarSrc of nat            (* a scalar-valued source (module output), index into [scalars] *)
+| EDot of expr & expr          (* dot product of two pointers *)
+| ESide of expr & bool         (* linv (true) / rinv (false), as operators of dynamic nodes *)
+| EApply of nat & expr.        (* translate / reinterpret: apply matrix number k of [matrices] *)
 
 Inductive perr := PUnrepresentable | PExn of exn.
 
@@ -37,38 +44,42 @@ Section Eval.
 Variable R : comRingType.
 Local Notation vec := (seq R).
 
-Record sval := SVal { sv_core : vec; sv_num : R; sv_den : R }.
+Record sval := SVal { sv_core : vec; sv_num : R; sv_den : R; sv_div : R }.
 
 (* result of evaluating a sub-expression: a pointer or a Python number p/q *)
 Inductive value := VPtr of sval | VNum of R & R.   (* VNum p q = p / q *)
 
 Definition of_scaled (x : scaled vec) : sval :=
-  SVal (core x) (rnum x)%:R (rden x)%:R.
+  SVal (core x) (rnum x)%:R (rden x)%:R 1.
 
-Definition sv_plain (v : vec) : sval := SVal v 1 1.
+Definition sv_plain (v : vec) : sval := SVal v 1 1 1.
 
 Variable al : alg.
 Variable d : nat.
 Variable entries : seq vec.     (* the vocabulary's vectors, in key order *)
+Variable scalars : seq (R * R). (* values p/q of scalar sources *)
+Variable matrices : seq (seq vec). (* transforms used by translate / reinterpret *)
 
 (* binding of two scaled values: cores bind (algebra adds its own radicand) *)
 Definition sv_bind (x y : sval) : result sval :=
   rmap (fun r => SVal (core r) ((rnum r)%:R * sv_num x * sv_num y)
-                               ((rden r)%:R * sv_den x * sv_den y))
+                               ((rden r)%:R * sv_den x * sv_den y) (sv_div x * sv_div y))
        (alg_bind al (sv_core x) (sv_core y)).
 
 Definition same_rad (x y : sval) : bool := sv_num x * sv_den y == sv_num y * sv_den x.
 
 Definition sv_add (x y : sval) : sum perr sval :=
   if size (sv_core x) != size (sv_core y) then inl (PExn ValueError) else
-  if same_rad x y then inr (SVal (vadd (sv_core x) (sv_core y)) (sv_num x) (sv_den x))
+  if same_rad x y then
+    inr (SVal (vadd (vscale (sv_div y) (sv_core x)) (vscale (sv_div x) (sv_core y)))
+              (sv_num x) (sv_den x) (sv_div x * sv_div y))
   else inl PUnrepresentable.
 
-Definition sv_neg (x : sval) : sval := SVal (vneg (sv_core x)) (sv_num x) (sv_den x).
+Definition sv_neg (x : sval) : sval := SVal (vneg (sv_core x)) (sv_num x) (sv_den x) (sv_div x).
 
-(* x * (p/q) = (p*q) * x / q^2 : core scaled by p*q, radicand divided by q^4 *)
+(* x * (p/q): core scaled by p, divisor by q *)
 Definition sv_scale (p q : R) (x : sval) : sval :=
-  SVal (vscale (p * q) (sv_core x)) (sv_num x) (sv_den x * (q * q) * (q * q)).
+  SVal (vscale p (sv_core x)) (sv_num x) (sv_den x) (sv_div x * q).
 
 Definition lift (r : result sval) : sum perr value :=
   match r with Ok x => inr (VPtr x) | Err e => inl (PExn e) end.
@@ -99,7 +110,7 @@ Fixpoint eval (e : expr) : sum perr value :=
       match eval a with
       | inr (VPtr x) =>
           match alg_invert al (sv_core x) STwo with
-          | Ok w => inr (VPtr (SVal (wval w) (sv_num x) (sv_den x)))
+          | Ok w => inr (VPtr (SVal (wval w) (sv_num x) (sv_den x) (sv_div x)))
           | Err er => inl (PExn er)
           end
       | inr (VNum _ _) => inl (PExn TypeError)
@@ -144,19 +155,47 @@ Fixpoint eval (e : expr) : sum perr value :=
           match al with
           | AHrr =>
               let v' := if neg then hrr_invert (sv_core x) else sv_core x in
-              inr (VPtr (SVal (hrr_pow_nat v' n) (sv_num x ^+ n) (sv_den x ^+ n)))
+              inr (VPtr (SVal (hrr_pow_nat v' n) (sv_num x ^+ n) (sv_den x ^+ n) (sv_div x ^+ n)))
           | AVtb =>
               match vtb_power (sv_core x) neg n with
-              | Ok r => inr (VPtr (SVal (core r) ((rnum r)%:R * sv_num x ^+ n) ((rden r)%:R * sv_den x ^+ n)))
+              | Ok r => inr (VPtr (SVal (core r) ((rnum r)%:R * sv_num x ^+ n) ((rden r)%:R * sv_den x ^+ n) (sv_div x ^+ n)))
               | Err er => inl (PExn er)
               end
           | ATvtb =>
               match tvtb_power (sv_core x) neg n with
-              | Ok r => inr (VPtr (SVal (core r) ((rnum r)%:R * sv_num x ^+ n) ((rden r)%:R * sv_den x ^+ n)))
+              | Ok r => inr (VPtr (SVal (core r) ((rnum r)%:R * sv_num x ^+ n) ((rden r)%:R * sv_den x ^+ n) (sv_div x ^+ n)))
               | Err er => inl (PExn er)
               end
           end
       | inr (VNum _ _) => inl PUnrepresentable
+      | inl er => inl er
+      end
+  | EScalarSrc i => let pq := nth (0, 1) scalars i in inr (VNum pq.1 pq.2)
+  | EDot a b =>
+      match eval a, eval b with
+      | inr (VPtr x), inr (VPtr y) =>
+          if size (sv_core x) != size (sv_core y) then inl (PExn ValueError)
+          (* <x,y> = <cx,cy> * sqrt(nx ny / (dx dy)); rational iff the radicands agree: sqrt = nx/dx *)
+          else if same_rad x y then inr (VNum (dot (sv_core x) (sv_core y) * sv_num x) (sv_den x * sv_div x * sv_div y))
+          else inl PUnrepresentable
+      | inr _, inr _ => inl (PExn SpaTypeError)
+      | inl er, _ => inl er
+      | _, inl er => inl er
+      end
+  | ESide a isleft =>
+      match eval a with
+      | inr (VPtr x) =>
+          match alg_invert al (sv_core x) (if isleft then SLeft else SRight) with
+          | Ok w => inr (VPtr (SVal (wval w) (sv_num x) (sv_den x) (sv_div x)))
+          | Err er => inl (PExn er)
+          end
+      | inr (VNum _ _) => inl (PExn SpaTypeError)
+      | inl er => inl er
+      end
+  | EApply k a =>
+      match eval a with
+      | inr (VPtr x) => inr (VPtr (SVal (matvec (nth [::] matrices k) (sv_core x)) (sv_num x) (sv_den x) (sv_div x)))
+      | inr (VNum _ _) => inl (PExn SpaTypeError)
       | inl er => inl er
       end
   | EMethod a m =>
@@ -167,15 +206,15 @@ Fixpoint eval (e : expr) : sum perr value :=
               (* v / ||v|| with ||v||^2 = (num/den) * <core,core>; zero unchanged *)
               let n2 := dot (sv_core x) (sv_core x) in
               if (n2 == 0) || (sv_num x == 0) then inr (VPtr x)
-              else inr (VPtr (SVal (sv_core x) 1 n2))
+              else inr (VPtr (SVal (sv_core x) 1 n2 1))
           | MLinv =>
               match alg_invert al (sv_core x) SLeft with
-              | Ok w => inr (VPtr (SVal (wval w) (sv_num x) (sv_den x)))
+              | Ok w => inr (VPtr (SVal (wval w) (sv_num x) (sv_den x) (sv_div x)))
               | Err er => inl (PExn er)
               end
           | MRinv =>
               match alg_invert al (sv_core x) SRight with
-              | Ok w => inr (VPtr (SVal (wval w) (sv_num x) (sv_den x)))
+              | Ok w => inr (VPtr (SVal (wval w) (sv_num x) (sv_den x) (sv_div x)))
               | Err er => inl (PExn er)
               end
           end
